@@ -157,6 +157,59 @@ theorem C07_picked_size_compaction_inputs_are_valid (s : State) (hinv : invB s =
     validInputs s lvl (i0.map File.num) (i1.map File.num) = true :=
   picked_inputs_valid s hinv p maxFileSize size pointers (pickCompaction_some.mp h)
 
+/-! ### the seek-triggered branch and the whole `pick_compaction` -/
+
+/-- **C07 for the seek-triggered branch**: for every state satisfying the invariant and every
+recorded seek compaction that names a file of its level (what `C09_seek_compaction_stays_well_placed`
+proves of `file_to_compact`), the inputs `pick_compaction` builds from it satisfy the input clauses
+of `validCompaction`. -/
+theorem C07_picked_seek_compaction_inputs_are_valid (s : State) (hinv : invB s = true)
+    (maxFileSize : Nat) (size : Nat → Nat) (lvl : Nat) (f : File) (hmem : f ∈ s.levels.getD lvl [])
+    (l' : Nat) (i0 i1 : List File) (h : pickSeek maxFileSize size s.levels lvl f = .picked l' i0 i1) :
+    l' = lvl ∧ validInputs s lvl (i0.map File.num) (i1.map File.num) = true :=
+  seek_inputs_valid s hinv maxFileSize size hmem h
+
+/-- **C09: the seek-triggered branch cannot index past the last level** when the recorded level
+has a next level - which `C09_charged_level_is_not_the_last` / `C09_sampled_level_is_not_the_last`
+prove of every charge. -/
+theorem C09_seek_pick_never_panics (maxFileSize : Nat) (size : Nat → Nat) (levels : List (List File))
+    (lvl : Nat) (f : File) (hl : lvl + 1 < 7) :
+    ∃ i0 i1, pickSeek maxFileSize size levels lvl f = .picked lvl i0 i1 := by
+  unfold pickSeek
+  have : ¬ numLevels ≤ lvl + 1 := by simp [numLevels]; omega
+  simp only [this, if_false]
+  exact ⟨_, _, rfl⟩
+
+/-- **C07 for the whole `pick_compaction`**: a size compaction is preferred
+(`pickAny = pickOutcome` whenever that picks), otherwise the recorded seek compaction is taken;
+whatever is picked has valid inputs. -/
+theorem C07_every_picked_compaction_has_valid_inputs (s : State) (hinv : invB s = true)
+    (p : Params) (maxFileSize : Nat) (size : Nat → Nat) (pointers : List (Option (Bytes × Nat)))
+    (seek : Option (Nat × File)) (hseek : ∀ l f, seek = some (l, f) → f ∈ s.levels.getD l [])
+    (lvl : Nat) (i0 i1 : List File)
+    (h : pickAny p maxFileSize size s.levels pointers seek = .picked lvl i0 i1) :
+    validInputs s lvl (i0.map File.num) (i1.map File.num) = true := by
+  unfold pickAny at h
+  split at h
+  · split at h
+    · rename_i l f
+      have := seek_inputs_valid s hinv maxFileSize size (hseek l f rfl) h
+      obtain ⟨rfl, hv⟩ := this
+      exact hv
+    · cases h
+  · rename_i o hno
+    exact picked_inputs_valid s hinv p maxFileSize size pointers h
+
+/-- a needed size compaction is never displaced by a seek compaction -/
+theorem C09_size_compaction_preferred (p : Params) (maxFileSize : Nat) (size : Nat → Nat)
+    (levels : List (List File)) (pointers : List (Option (Bytes × Nat))) (seek : Option (Nat × File))
+    (h : pickOutcome p maxFileSize size levels pointers ≠ .nothing) :
+    pickAny p maxFileSize size levels pointers seek = pickOutcome p maxFileSize size levels pointers := by
+  unfold pickAny
+  split
+  · rename_i hn; exact absurd hn h
+  · rfl
+
 /-! ### non-vacuity: concrete scores and layouts -/
 
 namespace ScoreExample
@@ -238,6 +291,16 @@ example : validInputs st 1 [6] [2, 3] = true := by decide +kernel
 
 /-- nothing is picked when no level is over its limit -/
 example : pickOutcome std 100 one st.levels noPointers = .nothing := by decide +kernel
+
+/-- no size compaction is needed with the built-in limits, a read has charged `X` (level 1) out:
+the seek-triggered branch picks `X` with its two parent files; had level 0 reached its trigger the
+size compaction would have been taken instead -/
+example : (match pickAny std 100 one st.levels noPointers (some (1, X)) with
+    | .picked l a b => some (l, a.map File.num, b.map File.num) | _ => none) = some (1, [6], [2, 3]) ∧
+    X ∈ st.levels.getD 1 [] ∧
+    (match pickAny small0 100 one st.levels noPointers (some (1, X)) with
+    | .picked l a b => some (l, a.map File.num, b.map File.num) | _ => none) = some (0, [10, 11], [5, 6]) := by
+  decide +kernel
 
 /-- the anomalous outcome exists in the model with the legacy loop bound: level 6 over its limit
 (`emptyLevelChosen` is unreachable, `C09_empty_level_is_never_chosen`) -/
